@@ -11,6 +11,10 @@ package main
 //	e.opts = p         store p
 //	p.Setter(v)…       set p field v    (field = the field the setter of query_options.go writes; chains in call order)
 //	e.f(target, p, l)  call f p l       (f one of the translated EdgeQuery methods)
+//	e.target.setMaxError(v)  tsetMaxError guards v   (guards = the conditions under which the call is evaluated: enclosing
+//	                         if-conditions and the left operands of enclosing && / ||, as text, negated ones prefixed
+//	                         with "!"; [] = evaluated whenever control reaches the statement.  v = `optsField f` for
+//	                         <options parameter>.f)
 //
 // References: `eopts` (e.opts), `param` (the *queryOptions parameter), `loc i` (pointer local i), `addr i` (&local i /
 // method call on the addressable struct local i).  Values: integer constants, the ChordAngle parameter (`limit`),
@@ -41,6 +45,69 @@ type evGen struct {
 	locals  []types.Object
 	evs     []string
 	setters map[string][2]string // method name -> field, "id" | "other"
+	guards  []string             // conditions under which the expression being visited is evaluated
+}
+
+func (g *evGen) push(c string) { g.guards = append(g.guards, c) }
+func (g *evGen) pop()          { g.guards = g.guards[:len(g.guards)-1] }
+
+// shortCircuit visits `l && r` / `l || r`: r is evaluated only under l / !l.
+func (g *evGen) shortCircuit(b *ast.BinaryExpr) {
+	g.expr(b.X)
+	c := oneLine(b.X)
+	if b.Op == token.LOR {
+		c = "!(" + c + ")"
+	}
+	g.push(c)
+	g.expr(b.Y)
+	g.pop()
+}
+
+// inspect visits the calls inside x in evaluation order, keeping track of short-circuit guards.
+func (g *evGen) inspect(x ast.Node) {
+	ast.Inspect(x, func(n ast.Node) bool {
+		switch v := n.(type) {
+		case *ast.BinaryExpr:
+			if v.Op == token.LAND || v.Op == token.LOR {
+				g.shortCircuit(v)
+				return false
+			}
+		case *ast.CallExpr:
+			g.expr(v)
+			return false
+		case *ast.FuncLit:
+			// a closure body runs when (and if) its callee calls it
+			g.push("<closure>")
+			g.stmts(v.Body.List)
+			g.pop()
+			return false
+		}
+		return true
+	})
+}
+
+// isTargetCall recognises e.target.<name>(…) / target.<name>(…) for the distanceTarget parameter or field.
+func (g *evGen) isTargetMethod(c *ast.CallExpr, name string) bool {
+	sel, ok := unparen(c.Fun).(*ast.SelectorExpr)
+	if !ok || sel.Sel.Name != name {
+		return false
+	}
+	t := g.s.pi.info.Types[sel.X].Type
+	n, ok := t.(*types.Named)
+	return ok && n.Obj().Name() == "distanceTarget"
+}
+
+// optsField: <options parameter>.f
+func (g *evGen) optsField(x ast.Expr) (string, bool) {
+	sel, ok := unparen(x).(*ast.SelectorExpr)
+	if !ok {
+		return "", false
+	}
+	id, ok := unparen(sel.X).(*ast.Ident)
+	if !ok || g.optsPar == nil || g.obj(id) != g.optsPar {
+		return "", false
+	}
+	return sel.Sel.Name, true
 }
 
 func isQueryOptions(t types.Type) bool {
@@ -155,13 +222,22 @@ func (g *evGen) expr(x ast.Expr) string {
 	c, ok := x.(*ast.CallExpr)
 	if !ok {
 		// look for calls in sub-expressions
-		ast.Inspect(x, func(n ast.Node) bool {
-			if cc, ok := n.(*ast.CallExpr); ok {
-				g.expr(cc)
-				return false
-			}
-			return true
-		})
+		g.inspect(x)
+		return ""
+	}
+	if g.isTargetMethod(c, "setMaxError") {
+		if len(c.Args) != 1 {
+			fatal(c.Pos(), "setMaxError with %d arguments", len(c.Args))
+		}
+		v := "(.other " + leanString(oneLine(c.Args[0])) + ")"
+		if f, ok := g.optsField(c.Args[0]); ok {
+			v = "(.optsField ." + f + ")"
+		}
+		var gs []string
+		for _, x := range g.guards {
+			gs = append(gs, leanString(x))
+		}
+		g.evs = append(g.evs, fmt.Sprintf(".tsetMaxError [%s] %s", strings.Join(gs, ", "), v))
 		return ""
 	}
 	if sel, ok := unparen(c.Fun).(*ast.SelectorExpr); ok {
@@ -223,16 +299,14 @@ func (g *evGen) expr(x ast.Expr) string {
 		}
 	}
 	// any other call: its receiver and arguments may contain calls
-	ast.Inspect(c.Fun, func(n ast.Node) bool {
-		if cc, ok := n.(*ast.CallExpr); ok {
-			g.expr(cc)
-			return false
-		}
-		return true
-	})
+	g.inspect(c.Fun)
 	for _, a := range c.Args {
 		if t := g.s.pi.info.Types[a].Type; t != nil && isQueryOptionsPtr(t) {
 			fatal(a.Pos(), "options pointer passed to untranslated function `%s`", oneLine(c.Fun))
+		}
+		if fl, ok := unparen(a).(*ast.FuncLit); ok {
+			g.inspect(fl)
+			continue
 		}
 		g.expr(a)
 	}
@@ -289,18 +363,26 @@ func (g *evGen) stmt(s ast.Stmt) {
 	case *ast.IfStmt:
 		g.stmt(v.Init)
 		g.expr(v.Cond)
+		g.push(oneLine(v.Cond))
 		g.stmts(v.Body.List)
+		g.pop()
+		g.push("!(" + oneLine(v.Cond) + ")")
 		g.stmt(v.Else)
+		g.pop()
 	case *ast.ForStmt:
 		g.stmt(v.Init)
 		if v.Cond != nil {
 			g.expr(v.Cond)
 		}
+		g.push("<loop>")
 		g.stmts(v.Body.List)
 		g.stmt(v.Post)
+		g.pop()
 	case *ast.RangeStmt:
 		g.expr(v.X)
+		g.push("<loop>")
 		g.stmts(v.Body.List)
+		g.pop()
 	case *ast.IncDecStmt, *ast.BranchStmt, *ast.DeclStmt:
 	default:
 		fatal(s.Pos(), "statement `%s` (%T) is outside the translated subset", oneLine(s), s)
@@ -326,6 +408,7 @@ inductive Field
   deriving DecidableEq, Repr
 inductive Val
   | int (n : Int) | limit | limitExpanded | limitShrunk | straight | other (s : String)
+  | optsField (f : Field)   -- (options parameter).f
   deriving DecidableEq, Repr
 /-- the translated EdgeQuery methods -/
 inductive Fn
@@ -337,6 +420,8 @@ inductive Ev
   | store (src : Ref)
   | set (obj : Ref) (f : Field) (v : Val)
   | call (fn : Fn) (opts : Option Ref) (limit : Option Val)
+  /-- e.target.setMaxError(v), evaluated under the listed conditions ([] = unconditionally) -/
+  | tsetMaxError (guards : List String) (v : Val)
   deriving DecidableEq, Repr
 
 `
@@ -453,6 +538,21 @@ func genQueryCell(ld *loader, facts *[]fact, files map[string]string) {
 	s.extract("ShapeIndex.Reset", "ShapeIndex_Reset")
 	s.extract("ShapeIndex.Add", "ShapeIndex_Add")
 	s.extract("EdgeQuery.Reset", "EdgeQuery_Reset")
+	// the distance targets: fields (no cache of anything derived from the target's index), the setters the
+	// index targets forward to their own query, capBound, maxBruteForceIndexSize
+	for _, mm := range []string{"Min", "Max"} {
+		for _, k := range []string{"Point", "Edge", "Cell", "ShapeIndex"} {
+			T := mm + "DistanceTo" + k + "Target"
+			s.structFields(T, T+"_fields")
+			s.extract(T+".setMaxError", T+"_setMaxError")
+			s.extract(T+".capBound", T+"_capBound")
+			s.extract(T+".maxBruteForceIndexSize", T+"_maxBruteForceIndexSize")
+			if k == "ShapeIndex" {
+				s.extract(T+".setIncludeInteriors", T+"_setIncludeInteriors")
+				s.extract(T+".setUseBruteForce", T+"_setUseBruteForce")
+			}
+		}
+	}
 	s.out.WriteString("end S2.Generated.QueryOptsIR\n")
 	*facts = append(*facts, s.facts...)
 	files["QueryOptsIR.lean"] = s.out.String()
